@@ -74,7 +74,7 @@ theorem lazy_remains_eq_full : ∀ (segs : List Seg) (now : Rat) (a : LAction), 
   | nil =>
     intro now a hl _ hf _
     simp only [lazyRun, fullRun, work]
-    exact ⟨rfl, rfl, by grind, hl, hf⟩
+    exact ⟨trivial, trivial, by grind, hl, hf⟩
   | cons s ss ih =>
     intro now a hl hs hf hw
     have hs0 := hs s (by simp)
@@ -125,7 +125,7 @@ theorem lazy_eq_full_dates_partial (segs : List Seg) (t0 : Rat) (a : LAction) (r
   refine ⟨by rw [hres, h2, h1], ?_, ?_⟩
   · have : r * ((fullRun p0 segs t0 (virt a t0)).2 / r) = (fullRun p0 segs t0 (virt a t0)).2 := by
       rw [Rat.mul_comm]; exact Rat.div_mul_cancel (by grind)
-    rw [this]; unfold doubleUpdate; simp
+    rw [this]; unfold doubleUpdate; simp only [Rat.sub_self]; split <;> rfl
   · intro δ _ hδ
     have h := (Rat.lt_div_iff hr).mp hδ
     rw [du0 (by rw [Rat.mul_comm]; exact Rat.le_of_lt h)]
@@ -191,7 +191,7 @@ theorem lazy_noop_resume_counterexample (p : Prec) (a : LAction) (hm : a.modifie
 
 /-! ### TI -/
 
-theorem div_le_iff' {a s d : Rat} (hs : 0 < s) : a / s ≤ d ↔ a ≤ s * d := by
+theorem div_le_iff_pos {a s d : Rat} (hs : 0 < s) : a / s ≤ d ↔ a ≤ s * d := by
   constructor
   · intro h
     have h1 : ¬ (d < a / s) := Rat.not_lt.mpr h
@@ -218,11 +218,32 @@ theorem ti_integral_eq_partial : ∀ (pieces : List Piece) (now amount : Rat), (
     have hq := hs q (by simp)
     unfold stepThrough solveSimple
     by_cases hc : amount ≤ q.speed * q.dur
-    · rw [if_pos hc, if_pos ((div_le_iff' hq).mpr hc)]; rfl
-    · rw [if_neg hc, if_neg (fun h => hc ((div_le_iff' hq).mp h))]
+    · rw [if_pos hc, if_pos ((div_le_iff_pos hq).mpr hc)]; rfl
+    · rw [if_neg hc, if_neg (fun h => hc ((div_le_iff_pos hq).mp h))]
       rw [ih (now + q.dur) _ (fun u hu => hs u (by simp [hu]))]
       cases solveSimple qs (amount - q.speed * q.dur) with
       | none => rfl
       | some x => simp [Rat.add_assoc]
+
+/-! ### non-vacuity -/
+
+/-- hypotheses of `lazy_eq_full_dates_partial` on a non-trivial history: cost 10, rate 2 for 1 s, suspended (rate 0) for
+3 s, rate 1 for 2 s — 6 units of work still to do when the final rate arrives -/
+example : let a : LAction := { cost := 10, remains := 10 }
+    Live a ∧ (∀ s ∈ [Seg.mk 2 1, Seg.mk 0 3, Seg.mk 1 2], 0 ≤ s.rate ∧ 0 ≤ s.dur) ∧
+    0 ≤ a.lastValue * (0 - a.lastUpdate) ∧ work [Seg.mk 2 1, Seg.mk 0 3, Seg.mk 1 2] < virt a 0 := by
+  refine ⟨⟨by show (0 : Rat) < 1; grind, by show (0 : Rat) < 1; grind, rfl, by decide, rfl, rfl⟩, ?_, ?_, ?_⟩
+  · intro s hs; simp at hs; rcases hs with rfl | rfl | rfl <;> constructor <;> simp <;> grind
+  · show (0 : Rat) ≤ 0 * (0 - 0); grind
+  · show (2 : Rat) * 1 + (0 * 3 + (1 * 2 + 0)) < 10 - 0 * (0 - 0); grind
+
+/-- hypotheses of the counterexamples: the state right after a solve (not in the modified set, variable enabled with the
+action's penalty) -/
+example : let a : LAction := { cost := 1000, remains := 1000, modified := false, heap := some 10, htype := .normal }
+    a.modified = false ∧ a.varPenalty = a.penalty := ⟨rfl, rfl⟩
+
+/-- hypothesis of `ti_integral_eq_partial` -/
+example : ∀ q ∈ [Piece.mk 2 1, Piece.mk 2 (1/2), Piece.mk 4 (1/4)], 0 < q.speed := by
+  intro q hq; simp at hq; rcases hq with rfl | rfl | rfl <;> simp <;> grind
 
 end SgVerif.C19
